@@ -55,6 +55,24 @@ pub fn ref_delete(tabs: &[Tab], pre: &State, t: usize, sel: &[usize]) -> RefOut 
     }
     let mut ambiguous = false;
     let mut post: State = pre.clone();
+    // columns of surviving rows that some SET NULL / SET DEFAULT action of this statement rewrites:
+    // a NO ACTION key over such a column may or may not still see the reference, depending on the
+    // order in which the engine happens to process the keys (two keys on one column) -- undecided
+    let mut rewritten: BTreeSet<(usize, usize, usize)> = BTreeSet::new();
+    for c in &live {
+        for fk in c.fks.iter().filter(|f| f.how != How::ColumnLevel && matches!(f.ondel, Act::SetNull | Act::SetDefault)) {
+            for (i, r) in rows_of(pre, c.id).iter().enumerate() {
+                if doomed.contains(&(c.id, i)) {
+                    continue;
+                }
+                if doomed.iter().any(|(pt, pi)| *pt == fk.parent && fk_matches(fk, r, &rows_of(pre, *pt)[*pi])) {
+                    for cc in &fk.cols {
+                        rewritten.insert((c.id, i, *cc));
+                    }
+                }
+            }
+        }
+    }
     for c in &live {
         for fk in c.fks.iter().filter(|f| f.how != How::ColumnLevel) {
             for (i, r) in rows_of(pre, c.id).iter().enumerate() {
@@ -63,9 +81,14 @@ pub fn ref_delete(tabs: &[Tab], pre: &State, t: usize, sel: &[usize]) -> RefOut 
                     continue;
                 }
                 let in_d = doomed.contains(&(c.id, i));
+                // two keys of this table over a common column with different actions: which action
+                // wins depends on the order the engine processes them in -- undecided
+                if c.fks.iter().any(|g| g.how != How::ColumnLevel && g.ondel != fk.ondel && g.cols.iter().any(|x| fk.cols.contains(x))) {
+                    ambiguous = true;
+                }
                 match fk.ondel {
                     Act::NoAction => {
-                        if in_d {
+                        if in_d || fk.cols.iter().any(|cc| rewritten.contains(&(c.id, i, *cc))) {
                             ambiguous = true;
                         } else {
                             return RefOut::Reject;
